@@ -37,13 +37,19 @@ def main():
     wt = a.wt or "/tmp/wt_%s" % pid
     dest = os.path.join(VERIF, "seeded", pid + a.suffix)
     os.makedirs(dest, exist_ok=True)
-    rc, diff = sh("git -C %s diff" % wt)
-    if not diff.strip():
-        print("no diff in", wt)
+    if os.path.isdir(wt):
+        rc, diff = sh("git -C %s diff" % wt)
+        if not diff.strip():
+            print("no diff in", wt)
+            return 2
+        open(os.path.join(dest, "patch.diff"), "w").write(diff)
+    elif not os.path.exists(os.path.join(dest, "patch.diff")):
+        print("neither worktree nor stored patch for", pid)
         return 2
-    open(os.path.join(dest, "patch.diff"), "w").write(diff)
+    else:
+        a.skip_verify = True          # worktree already removed: re-evaluate the stored patch only
     demo = os.path.join(wt, "demo_%s.py" % pid)
-    if os.path.exists(demo):
+    if os.path.isdir(wt) and os.path.exists(demo):
         shutil.copy(demo, os.path.join(dest, "demo_%s.py" % pid))
     ran = []
     verified = {}
